@@ -564,7 +564,8 @@ class Parser:
             node: ast.Constant | ast.JoinedStr | ast.Call = values[0]
         else:
             node = ast.JoinedStr(
-                values=consolidated,
+                # an empty literal part ('' next to an f-string) leaves no Constant behind
+                values=[v for v in consolidated if not (isinstance(v, ast.Constant) and v.value == "")],
                 lineno=start[0] if start else values[0].lineno,
                 col_offset=start[1] if start else values[0].col_offset,
                 end_lineno=end[0] if end else values[-1].end_lineno,
